@@ -377,6 +377,21 @@ pub fn judge(emu: &mut Emu, case: &StepCase, asp: &Aspects, open_quirks: &[Quirk
     emu.clear_write_log();
     // --- reference
     let pure = run_ref(case, &pre, &[]);
+    // the loader's record of `___exit` is consulted by the run loop between instructions and by nothing else: what an
+    // instruction does must not depend on it. It is set to values that coincide with this very case - where the
+    // instruction is expected to go, what it accesses, a register's contents, its own address - or to zero.
+    {
+        let h = case.pc.wrapping_mul(0x9e37_79b9) ^ case.er[0].rotate_left(7) ^ (case.ccr as u32) << 13 ^ case.er[7];
+        let h = h ^ (h >> 15);
+        emu.cpu.exit_addr = match h % 8 {
+            0 | 1 => pure.pc & 0xff_ffff,
+            2 => pure.step.accesses.first().map(|a| a.addr).unwrap_or(case.pc) & 0xff_ffff,
+            3 => case.er[((h >> 8) % 8) as usize] & 0xff_ffff,
+            4 => case.pc & 0xff_ffff,
+            5 => pure.pc,
+            _ => 0,
+        };
+    }
     // --- emulator
     let result = match case.irq {
         Some(v) => {
